@@ -2,13 +2,13 @@
  * File model (stubs/rdtop_stubs.c): header lines in_hdr[l][LW], line l ends ('\n') at column in_nl[l]; numeric header fields have
  * the oracle values in_l2[0..4] (TOTCRD PTRCRD INDCRD VALCRD RHSCRD) and in_l3[0..3] (NROW NCOL NNZERO NELTVL); the three edit
  * descriptors of line 4 denote (in_pn[k], in_ps[k]) = (items per line, field width), k = 0 pointers, 1 indices, 2 values.
- * Data part: section starts (line numbers, 0-based) g_s0 pointers, g_s1 indices, g_s2 values, g_end first line after the matrix.
+ * Data part: section starts (line numbers, 0-based) g_s0 pointers, g_s1 indices, g_s2 values, g_end first line after the matrix;
+ * the sections are PTRCRD, INDCRD, VALCRD lines long (the header's own line counts).
  * Pointwise data oracle: in_item_ptr / in_item_ptr1 = items g_i, g_i+1 of the pointer section, in_item_ind / in_item_val(_im) =
  * item g_t of the index / value section, as printed (1-based). */
 #define LW 84
 #define NHL 5
 #define NB 500000000
-#define CEILDIV(a,b) (((a) + (b) - 1) / (b))
 #define TOTCRD in_l2[0]
 #define PTRCRD in_l2[1]
 #define INDCRD in_l2[2]
@@ -25,10 +25,8 @@
 #endif
 /* complex files hold 2 numbers per entry */
 #if CPLX
-#define NPER 2
-#define VAL_IS(x) ((x).r == (@R@)in_item_val && (x).i == (@R@)in_item_val_im)
+#define VAL_IS(x) ((x).r == (VR)in_item_val && (x).i == (VR)in_item_val_im)
 #else
-#define NPER 1
-#define VAL_IS(x) ((x) == (@T@)in_item_val)
+#define VAL_IS(x) ((x) == (VT)in_item_val)
 #endif
 #define SYMTYPE (in_hdr[2][1] == 'S' || in_hdr[2][1] == 's')
